@@ -166,3 +166,139 @@ def iteration_paths_avoid(body, loop, src, avoid_blocks=(), avoid_edges=()):
             seen.add(y)
             st.append(y)
     return False
+
+
+def threaded_succ(body):
+    """successor map with trivial jump threading: a block that assigns a constant to a local and jumps (through empty
+    blocks) to a SwitchInt on that local continues only at the selected arm. Makes `a || b` / `a && b` temporaries
+    path sensitive."""
+    if hasattr(body, '_tsucc'):
+        return body._tsucc
+    ts = {b: list(s) for b, s in enumerate(body.succ)}
+    for blk in body.blocks:
+        if blk.cleanup or blk.idx not in body.reachable or blk.term.kind != 'goto':
+            continue
+        consts = {}
+        for s in blk.stmts:
+            if s.kind == 'assign' and s.lhs is not None and not s.lhs.proj:
+                if s.rv.kind == 'use' and s.rv.ops[0].is_const() and s.rv.ops[0].int_value() is not None:
+                    consts[s.lhs.local] = s.rv.ops[0].int_value()
+                else:
+                    consts.pop(s.lhs.local, None)
+        if not consts:
+            continue
+        j = blk.term.raw['target']
+        hops = 0
+        while hops < 4 and not body.blocks[j].stmts and body.blocks[j].term.kind == 'goto':
+            j = body.blocks[j].term.raw['target']
+            hops += 1
+        jb = body.blocks[j]
+        if jb.term.kind != 'switch':
+            continue
+        d = jb.term.discr
+        if d.place is None or d.place.proj:
+            continue
+        dl = d.place.local
+        if jb.stmts:
+            # allow a single copy `_y = _x` that feeds the switch
+            if len(jb.stmts) == 1 and jb.stmts[0].kind == 'assign' and not jb.stmts[0].lhs.proj and jb.stmts[0].lhs.local == dl and \
+                    jb.stmts[0].rv.kind == 'use' and jb.stmts[0].rv.ops[0].place is not None and not jb.stmts[0].rv.ops[0].place.proj:
+                dl = jb.stmts[0].rv.ops[0].place.local
+            else:
+                continue
+        if dl not in consts:
+            continue
+        v = consts[dl]
+        tgt = jb.term.otherwise
+        for val, t in jb.term.arms:
+            if val == v:
+                tgt = t
+        ts[blk.idx] = [tgt]
+    body._tsucc = ts
+    return ts
+
+
+def reach_threaded(body, start, removed_blocks=()):
+    rb = set(removed_blocks)
+    ts = threaded_succ(body)
+    if isinstance(start, int):
+        start = [start]
+    seen = set()
+    st = []
+    for s in start:
+        if s not in rb and s not in seen:
+            seen.add(s)
+            st.append(s)
+    while st:
+        x = st.pop()
+        for y in ts.get(x, []):
+            if y in rb or y in seen or body.blocks[y].cleanup:
+                continue
+            seen.add(y)
+            st.append(y)
+    return seen
+
+
+def reach_const(body, start, known=None, limit=20000):
+    """blocks reachable from `start` under forward propagation of integer/bool constants held in whole locals:
+    a SwitchInt on a local whose value is known on the path follows only the selected arm (path sensitive for the
+    temporaries of `a || b`, `!x && y`, flags, ...)."""
+    start_state = (start, frozenset((known or {}).items()))
+    seen_states = {start_state}
+    blocks = {start}
+    st = [start_state]
+    n = 0
+    while st and n < limit:
+        n += 1
+        blk_i, kn = st.pop()
+        k = dict(kn)
+        blk = body.blocks[blk_i]
+        for s in blk.stmts:
+            if s.kind != 'assign' or s.lhs is None:
+                continue
+            if s.lhs.proj:
+                continue
+            l = s.lhs.local
+            v = None
+            if s.rv.kind == 'use':
+                o = s.rv.ops[0]
+                if o.is_const() and o.int_value() is not None:
+                    v = o.int_value()
+                elif o.place is not None and not o.place.proj and o.place.local in k:
+                    v = k[o.place.local]
+            elif s.rv.kind == 'unop' and s.rv.op == 'Not':
+                o = s.rv.ops[0]
+                if o.place is not None and not o.place.proj and o.place.local in k and k[o.place.local] in (0, 1):
+                    v = 1 - k[o.place.local]
+            if v is None:
+                k.pop(l, None)
+            else:
+                k[l] = v
+        t = blk.term
+        succ = list(body.succ[blk_i])
+        if t.kind == 'call' and t.dest is not None and not t.dest.proj:
+            k.pop(t.dest.local, None)
+        if t.kind == 'switch' and t.discr.place is not None and not t.discr.place.proj and t.discr.place.local in k:
+            v = k[t.discr.place.local]
+            tgt = t.otherwise
+            for val, tg in t.arms:
+                if val == v:
+                    tgt = tg
+            succ = [tgt] if tgt in body.succ[blk_i] else []
+        elif t.kind == 'switch' and t.discr.is_const() and t.discr.int_value() is not None:
+            v = t.discr.int_value()
+            tgt = t.otherwise
+            for val, tg in t.arms:
+                if val == v:
+                    tgt = tg
+            succ = [tgt]
+        fk = frozenset(k.items())
+        for y in succ:
+            if body.blocks[y].cleanup:
+                continue
+            stt = (y, fk)
+            if stt not in seen_states:
+                seen_states.add(stt)
+                blocks.add(y)
+                st.append(stt)
+    return blocks
